@@ -70,14 +70,29 @@ def canon(ctx, v, depth=0):
     return ("other", type(v).__name__, str(v)[:80])
 
 
+def _wild(x):
+    return isinstance(x, tuple) and x and (x[0] == "model" or (x[0] == "other" and x[1] in ("Rope", "SStr", "ArithRef", "BoolRef", "OStr", "Dec")))
+
+
+def _same(x, y):
+    """structural equality; a modelled library value / an uninterpreted term on the interpreter side is an
+    abstraction with nothing to compare"""
+    if _wild(x):
+        return True
+    if isinstance(x, tuple) and isinstance(y, tuple):
+        return len(x) == len(y) and all(_same(a, b) for a, b in zip(x, y))
+    return x == y
+
+
 def deep_same(ctx_a, a, ctx_b, b):
     ca, cb = canon(ctx_a, a), canon(ctx_b, b)
-    if isinstance(ca, tuple) and ca and ca[0] == "model":
-        return True, ca, cb          # a modelled library value (json text, ...): an abstraction, nothing to compare
-    return ca == cb, ca, cb
+    return _same(ca, cb), ca, cb
 
 
 def one(spec, q):
+    if os.environ.get("XCHECK_MODELS"):
+        import pyvc.models as _M
+        _M.FORCE_MODELS = True
     from pyvc.check import find_contract
     from pyvc.engine import Ctx, PyRaise, Undecided, PathCut, PathLimit
     from pyvc.bounded import RandomBuilder
@@ -153,6 +168,9 @@ def one(spec, q):
 
 
 if __name__ == "__main__":
+    if "--models" in sys.argv:
+        sys.argv.remove("--models")
+        os.environ["XCHECK_MODELS"] = "1"
     mods = sys.argv[1:] or props.CONTRACT_MODULES
     specs = []
     for m in mods:
@@ -192,5 +210,6 @@ if __name__ == "__main__":
                 running.remove(item)
     print(json.dumps(tot))
     if not sys.argv[1:]:
-        json.dump(tot, open(os.path.join(HERE, "selftest", "XCHECK.json"), "w"), indent=1)
+        name = "XCHECK_MODELS.json" if os.environ.get("XCHECK_MODELS") else "XCHECK.json"
+        json.dump(tot, open(os.path.join(HERE, "selftest", name), "w"), indent=1)
     sys.exit(1 if tot["mismatches"] else 0)
